@@ -201,6 +201,8 @@ structure Obs where
   c : List String
   rw : Option (List Nat)
   f : String
+  /-- (GFF) bytes in the intended format written by the harness, and the real reader's results on them -/
+  m : Option (List Nat × List String) := none
 
 def parseObs (out : String) : Option Obs :=
   match out.splitOn " " with
@@ -211,7 +213,19 @@ def parseObs (out : String) : Option Obs :=
     let rw ← fieldVal rw "rw"
     let f ← fieldVal f "f"
     let rw ← if rw = "x" then some none else (parseHex rw).map some
-    pure ⟨w, results r, results c, rw, f⟩
+    pure ⟨w, results r, results c, rw, f, none⟩
+  | [w, r, c, rw, f, m] => do
+    let w ← (fieldVal w "w").bind parseHex
+    let r ← fieldVal r "r"
+    let c ← fieldVal c "c"
+    let rw ← fieldVal rw "rw"
+    let f ← fieldVal f "f"
+    let m ← fieldVal m "m"
+    let rw ← if rw = "x" then some none else (parseHex rw).map some
+    let mm ← match m.splitOn "=" with
+      | b :: rest@(_ :: _) => (parseHex b).map fun bytes => (bytes, results ("=".intercalate rest))
+      | _ => none
+    pure ⟨w, results r, results c, rw, f, some mm⟩
   | _ => none
 where
   fieldVal (tok key : String) : Option String :=
@@ -263,7 +277,13 @@ def bedVerdict (recs : List BedRec) (comments fault : String) (o : Obs) : String
         ++ tagsOf "bed" fault recs.length comments (runs.map fun (b, _) => bedExp b)
         ++ (if k = 0 then " k0" else if k ≥ 3 then " k>=3" else " k1-2")
 
-def gffVerdict (dn : String) (d : Dialect) (recs : List GffRead) (comments fault : String) (o : Obs) : String :=
+def gffVerdict (dn : String) (d : Dialect) (recs : List GffRead) (comments fault style : String) (o : Obs) : String :=
+  match o.m with
+  | none => "bad-op output-m"
+  | some (mBytes, mRes) =>
+  let mExp := gffExp d mBytes
+  -- the harness' own writer must produce the intended format: the model reads it back to the original
+  if !((recs.mapM showGff).isSome && allOk mExp = recs.mapM showGff) then "bad-op harness-writer" else
   let wExp := gffExp d o.w
   let orig := recs.mapM showGff
   let origFirst := (recs.map firstOnly).mapM showGff
@@ -285,6 +305,7 @@ def gffVerdict (dn : String) (d : Dialect) (recs : List GffRead) (comments fault
   let reasons : List String := writerReason
     ++ (match matchResults wExp o.r false false with | some x => ["read:" ++ x] | none => [])
     ++ (match matchResults wExp o.c false false with | some x => ["comments:" ++ x] | none => [])
+    ++ (match matchResults mExp mRes false false with | some x => ["read-intended:" ++ x] | none => [])
     ++ rwReason
   match faultRuns fault o with
   | none => "bad-op fault-output"
@@ -296,7 +317,7 @@ def gffVerdict (dn : String) (d : Dialect) (recs : List GffRead) (comments fault
       let nvals := recs.map fun r => r.pairs.length
       "ok" ++ (if nvals.any (· ≥ 2) then " nt" else "")
         ++ tagsOf dn fault recs.length comments (runs.map fun (b, _) => gffExp d b)
-        ++ (if multi then " multi-valued" else "")
+        ++ (if multi then " multi-valued" else "") ++ " style-" ++ style
         ++ (if recs.any (fun r => r.pairs.isEmpty) then " no-attrs" else "")
 
 def verdict (toks : List String) (out : String) : String :=
@@ -309,12 +330,12 @@ def verdict (toks : List String) (out : String) : String :=
       | some o => bedVerdict recs cm ft o
       | none => "bad-op output"
     | none => "bad-op parse"
-  | ["gff", dn, rs, cm, ft] =>
+  | ["gff", dn, rs, cm, ft, style] =>
     match parseDialect dn, parseList parseGffRec rs '/' with
     | some d, some recs =>
       if failed out then "reject " ++ out else
       match parseObs out with
-      | some o => gffVerdict dn d recs cm ft o
+      | some o => gffVerdict dn d recs cm ft style o
       | none => "bad-op output"
     | _, _ => "bad-op parse"
   | _ => "bad-op arity"
